@@ -70,6 +70,49 @@ pub(crate) mod spec {
         if v == 0 { 0 } else if v == bad_mark(width) { 2 } else if v >= eoc_min(width) { 3 } else { 1 }
     }
 
+    /// Size of the FAT window used by the table harnesses and the largest entry count examined in it.
+    pub(crate) const NB: usize = 32;
+    pub(crate) const MAXN: u32 = 10;
+
+    /// Structural invariant of a FAT with `n` entries (clusters 2..n): every link points to an in-range cluster,
+    /// no cluster is the target of two links (no cross-link) and `rank` strictly increases along links (no cycle).
+    /// `rank` is a witness chosen by the solver (existential in an assumption, checked in an assertion).
+    pub(crate) fn wf(width: u8, d: &[u8; NB], n: u32, rank: &[u8; MAXN as usize]) -> bool {
+        let mut i = 2;
+        while i < n {
+            let v = raw(width, d, i);
+            if classify(width, v) == 1 {
+                if v < 2 || v >= n { return false; }
+                if rank[v as usize] <= rank[i as usize] { return false; }
+                // a link never points at a free or bad cluster
+                let t = classify(width, raw(width, d, v));
+                if t == 0 || t == 2 { return false; }
+                let mut j = i + 1;
+                while j < n {
+                    if raw(width, d, j) == v { return false; }
+                    j += 1;
+                }
+            }
+            i += 1;
+        }
+        true
+    }
+
+    /// Number of free (zero) entries among clusters 2..n.
+    pub(crate) fn count_free(width: u8, d: &[u8; NB], n: u32) -> u32 {
+        let mut c = 0;
+        let mut i = 2;
+        while i < n { if raw(width, d, i) == 0 { c += 1; } i += 1; }
+        c
+    }
+
+    /// true iff some entry in 2..n links to `c`.
+    pub(crate) fn has_pred(width: u8, d: &[u8; NB], n: u32, c: u32) -> bool {
+        let mut i = 2;
+        while i < n { if raw(width, d, i) == c && classify(width, c) == 1 { return true; } i += 1; }
+        false
+    }
+
     /// Long-name checksum of an 11-byte short name (specification's ChkSum routine).
     pub(crate) fn lfn_checksum(sfn: &[u8; 11]) -> u8 {
         let mut s: u8 = 0;
@@ -227,6 +270,8 @@ pub(crate) mod dev {
         pub w_first: [u8; LOGN],
         pub overflow: bool,
         pub nreads: u32,
+        pub r_off: u64,
+        pub r_len: u64,
         pub flushes: u32,
         pub writes_at_last_flush: usize,
         pub fill: u8,
@@ -235,7 +280,7 @@ pub(crate) mod dev {
     }
     impl LogDev {
         pub(crate) fn new(end: u64) -> Self {
-            Self { pos: 0, end, nw: 0, w_off: [0; LOGN], w_len: [0; LOGN], w_first: [0; LOGN], overflow: false, nreads: 0,
+            Self { pos: 0, end, nw: 0, w_off: [0; LOGN], w_len: [0; LOGN], w_first: [0; LOGN], overflow: false, nreads: 0, r_off: 0, r_len: 0,
                    flushes: 0, writes_at_last_flush: 0, fill: 0, watch_addr: u64::MAX, watch_val: 0 }
         }
     }
@@ -245,6 +290,8 @@ pub(crate) mod dev {
             self.nreads += 1;
             let n = buf.len() as u64;
             let a = self.pos;
+            self.r_off = a;
+            self.r_len = n;
             if n > 0 && self.watch_addr >= a && self.watch_addr - a < n {
                 buf[(self.watch_addr - a) as usize] = self.watch_val;
             }
